@@ -25,6 +25,29 @@ thread_local! {
     static DROPPED_TWICE: RefCell<u64> = const { RefCell::new(0) };
     /// side channel (not part of the compared log): (module, incarnation, log length) at every scripted panic
     static PANICS: RefCell<Vec<(String, u32, usize)>> = const { RefCell::new(Vec::new()) };
+    /// what the channel probes saw: one entry per transmission start
+    static TXLOG: RefCell<Vec<Value>> = const { RefCell::new(Vec::new()) };
+}
+
+/// ChannelProbe that records every transmission start of channel `.0`
+struct TxProbe(u64);
+impl des::net::channel::ChannelProbe for TxProbe {
+    fn on_message_transmit(&mut self, _: &ChannelMetrics, msg: &Message) {
+        let e = json!({"o": "tx", "ch": self.0, "id": msg.header().id, "t": now_ticks()});
+        TXLOG.with(|l| l.borrow_mut().push(e));
+    }
+}
+
+/// module a reports the public state of its outgoing channel at the start of every callback
+fn log_channel_state(name: &str) {
+    if name != "a" {
+        return;
+    }
+    if let Some(ch) = current().gate("out", 0).and_then(|g| g.channel()) {
+        let until = ch.transmission_finish_time();
+        let t = TICK.with(|t| *t.borrow());
+        log(json!({"o": "ch", "m": "a", "busy": ch.is_busy(), "until": (until.as_nanos() / t.as_nanos()) as u64}));
+    }
 }
 
 fn tick() -> Duration {
@@ -202,11 +225,13 @@ impl Module for Scripted {
     }
     fn at_sim_start(&mut self, stage: usize) {
         log(json!({"o": "start", "m": self.name, "stage": stage, "t": now_ticks(), "inc": self.inc}));
+        log_channel_state(&self.name);
         self.run_script();
     }
     fn handle_message(&mut self, msg: Message) {
         log(json!({"o": "msg", "m": self.name, "id": msg.header().id, "t": now_ticks(), "inc": self.inc}));
         drop(msg);
+        log_channel_state(&self.name);
         self.run_script();
     }
     fn reset(&mut self) {
@@ -339,6 +364,8 @@ pub struct Outcome {
     pub log: Vec<Value>,
     pub err: BTreeSet<String>,
     pub tend: i64,
+    /// transmission starts seen by the channel probes
+    pub txlog: Vec<Value>,
     /// per module: "no" (never panicked) | "dead" (panicked, nothing of it ran in a later incarnation) | "revived"
     pub dead: std::collections::BTreeMap<String, &'static str>,
     pub result_ok: bool,
@@ -357,6 +384,7 @@ pub fn run_scenario(cfg: &NetCfg, scripts: &Value, seed: u64) -> Outcome {
 pub fn run_scenario_stop(cfg: &NetCfg, scripts: &Value, seed: u64, stop: &str) -> Outcome {
     silence_panics();
     LOG.with(|l| l.borrow_mut().clear());
+    TXLOG.with(|l| l.borrow_mut().clear());
     NEXT_MSG.with(|n| *n.borrow_mut() = 1);
     TICK.with(|t| *t.borrow_mut() = Duration::from_nanos(cfg.tick_ns));
     BYTES.with(|b| *b.borrow_mut() = cfg.bytes.clone());
@@ -379,6 +407,11 @@ pub fn run_scenario_stop(cfg: &NetCfg, scripts: &Value, seed: u64, stop: &str) -
         let ao = track_gate(sim.gate("a", "out"));
         let bi = track_gate(sim.gate("b", "in"));
         ao.clone().connect(bi, channel(cfg, "1"));
+        // the forward direction of a connection carries a copy of the channel that was handed to connect: the probe goes
+        // onto the instance that Gate::channel reports for the sending gate
+        if let Some(ch) = ao.channel() {
+            ch.attach_probe(TxProbe(1));
+        }
         let bo = track_gate(sim.gate("b", "out"));
         let ai = track_gate(sim.gate("a", "in"));
         bo.clone().connect(ai, None);
@@ -391,8 +424,11 @@ pub fn run_scenario_stop(cfg: &NetCfg, scripts: &Value, seed: u64, stop: &str) -
                 ct.connect(i2, channel(cfg, "2"));
             } else {
                 // the channel lies before the transit gate
-                o2.connect(ct.clone(), channel(cfg, "2"));
+                o2.clone().connect(ct.clone(), channel(cfg, "2"));
                 ct.connect(i2, None);
+                if let Some(ch) = o2.channel() {
+                    ch.attach_probe(TxProbe(2));
+                }
             }
         }
         // a ring of four transit gates (reference cycle among gates, never used for traffic)
@@ -442,7 +478,7 @@ pub fn run_scenario_stop(cfg: &NetCfg, scripts: &Value, seed: u64, stop: &str) -
         inject(&mut rt);
         Some(rt.run())
     }));
-    let mut out = Outcome { gates_alive: 0, channels_alive: 0, log: Vec::new(), err: BTreeSet::new(), tend: -1, result_ok: false, live_after_drop: [0; 3], dropped_twice: 0, panicked: false, dead: Default::default() };
+    let mut out = Outcome { gates_alive: 0, channels_alive: 0, log: Vec::new(), err: BTreeSet::new(), tend: -1, result_ok: false, live_after_drop: [0; 3], dropped_twice: 0, panicked: false, dead: Default::default(), txlog: Vec::new() };
     match r {
         Err(_) => out.panicked = true,
         Ok(None) => {}
@@ -469,6 +505,7 @@ pub fn run_scenario_stop(cfg: &NetCfg, scripts: &Value, seed: u64, stop: &str) -
         }
     }
     out.log = LOG.with(|l| l.borrow().clone());
+    out.txlog = TXLOG.with(|l| l.borrow().clone());
     for m in &cfg.mods {
         out.dead.insert(m.clone(), "no");
     }
@@ -532,8 +569,14 @@ pub fn replay(args: &[String]) {
             s.sample(json!({"scripts": v["scripts"], "log_head": v["log"].as_array().unwrap().iter().take(12).collect::<Vec<_>>()}));
         }
         watchdog::enter(|| json!({"scripts": v["scripts"], "cfg": cfgv}).to_string());
-        let out = run_scenario(&cfg, &v["scripts"], 1 + li as u64);
-        let exp_log = v["log"].as_array().unwrap();
+        let mut out = run_scenario(&cfg, &v["scripts"], 1 + li as u64);
+        // the interpreter's log carries the probe entries ("tx") in flush order; they are compared as a sequence of their own
+        let full_log = v["log"].as_array().unwrap();
+        let exp_log_vec: Vec<Value> = full_log.iter().filter(|e| e["o"] != "tx").cloned().collect();
+        // probes sit on channel 1 (a.out -> b.in) and, where the sending gate reaches it directly (T3), on channel 2
+        let probed = |ch: u64| ch == 1 || (ch == 2 && cfg.topo == "T3");
+        let exp_tx: Vec<Value> = full_log.iter().filter(|e| e["o"] == "tx" && probed(e["ch"].as_u64().unwrap_or(0))).cloned().collect();
+        let exp_log = &exp_log_vec;
         // classes for the non-trivial count
         let txt = v["scripts"].to_string();
         if txt.contains("\"restart\"") || txt.contains("\"shutdown\"") { s.bump("with_shutdown", 1); }
@@ -571,6 +614,13 @@ pub fn replay(args: &[String]) {
         } else if let Some(i) = first_diff(exp_log, &out.log) {
             let what = exp_log.get(i).or(out.log.get(i)).map(|e| e["o"].as_str().unwrap_or("?").to_string()).unwrap_or_default();
             fail(&format!("observation log diverges at a '{what}' entry"), json!({"index": i, "expected": exp_log.get(i), "got": out.log.get(i), "got_log": out.log}));
+            return;
+        }
+        // transmissions started by tear-down emissions (ids >= 9000, the C20 scenarios) are not part of the interpreter's run
+        out.txlog.retain(|e| e["id"].as_u64().unwrap_or(0) < 9000);
+        if cfgv["per_module"] != true && exp_tx != out.txlog {
+            let i = first_diff(&exp_tx, &out.txlog).unwrap_or(0);
+            fail("transmission starts seen by the channel probes", json!({"index": i, "expected": exp_tx.get(i), "got": out.txlog.get(i), "got_txlog": out.txlog}));
             return;
         }
         let mut exp_err: BTreeSet<String> = v["err"].as_array().unwrap().iter().map(|x| x.as_str().unwrap().to_string()).collect();
